@@ -28,8 +28,8 @@ import (
 )
 
 type mode struct {
-	client               bool // encoder side
-	utf8, lminus, lplus  bool
+	client              bool // encoder side
+	utf8, lminus, lplus bool
 }
 
 func (m mode) String() string {
@@ -594,6 +594,208 @@ func (c *checker) literalStream(m mode, payload []byte) {
 	c.w.Class("literal-stream")
 }
 
+// session: ONE long-lived encoder writes nLines lines of mixed values into one stream and ONE
+// long-lived decoder reads them all back (as on a real connection, where the client keeps a single
+// decoder for its whole life). Decoder state that survives a value (list depth, literal and CRLF
+// bookkeeping) must not drift: line 3000 must decode exactly like line 1.
+type sessItem struct {
+	kind  string
+	s     string
+	n     uint32
+	n64   int64
+	depth int
+	k     int
+}
+
+func (c *checker) session(m mode, rng *rand.Rand, nLines int) {
+	e := newEnc(m)
+	var lines [][]sessItem
+	for i := 0; i < nLines; i++ {
+		var items []sessItem
+		for k := 1 + rng.Intn(5); k > 0; k-- {
+			var it sessItem
+			switch rng.Intn(9) {
+			case 0, 1:
+				it = sessItem{kind: "emptylist"}
+			case 2:
+				it = sessItem{kind: "list", k: 1 + rng.Intn(4), n: randNum(rng)}
+			case 3:
+				it = sessItem{kind: "nested", depth: 1 + rng.Intn(30), k: rng.Intn(3)}
+			case 4:
+				it = sessItem{kind: "num", n: randNum(rng)}
+			case 5:
+				it = sessItem{kind: "num64", n64: rng.Int63()}
+			case 6:
+				it = sessItem{kind: "nil"}
+			default:
+				sc := strClasses[rng.Intn(len(strClasses))]
+				ln := []int{0, 1, 7, 40}[rng.Intn(4)]
+				if rng.Intn(40) == 0 {
+					ln = []int{4096, 4097}[rng.Intn(2)]
+				}
+				it = sessItem{kind: "str", s: genString(rng, sc, ln)}
+			}
+			items = append(items, it)
+		}
+		lines = append(lines, items)
+		e.Atom("X")
+		for _, it := range items {
+			e.SP()
+			switch it.kind {
+			case "emptylist":
+				e.List(0, nil)
+			case "list":
+				e.List(it.k, func(int) { e.Number(it.n) })
+			case "nested":
+				var rec func(d int)
+				rec = func(d int) {
+					if d == 0 {
+						e.List(it.k, func(int) { e.Atom("leaf") })
+						return
+					}
+					e.List(1, func(int) { rec(d - 1) })
+				}
+				rec(it.depth)
+			case "num":
+				e.Number(it.n)
+			case "num64":
+				e.Number64(it.n64)
+			case "nil":
+				e.NIL()
+			case "str":
+				e.String(it.s)
+			}
+		}
+		e.SP().Atom("SENTINEL")
+		if err := e.CRLF(); err != nil {
+			c.viol("encoder-refused-representable", m, "session", fmt.Sprintf("line %d", i), err.Error(), nil)
+			return
+		}
+	}
+	wire := e.buf.Bytes()
+	d := newDec(m, wire)
+	bucket := func(i int) string {
+		switch {
+		case i < 100:
+			return "line<100"
+		case i < 1000:
+			return "line<1000"
+		}
+		return "line>=1000"
+	}
+	nEmpty := 0
+	for i, items := range lines {
+		fail := func(it sessItem, detail string) {
+			c.viol("value-changed", m, "session/"+it.kind, bucket(i), fmt.Sprintf("line %d of a %d-line stream read by one decoder (%d empty lists decoded before): %s (decoder error: %v)", i, nLines, nEmpty, detail, d.Err()), nil)
+		}
+		var x string
+		if !d.ExpectAtom(&x) || x != "X" {
+			fail(sessItem{kind: "line-start"}, fmt.Sprintf("line does not start with the atom X (got %q)", x))
+			return
+		}
+		for _, it := range items {
+			if !d.ExpectSP() {
+				fail(it, "missing SP")
+				return
+			}
+			switch it.kind {
+			case "emptylist":
+				n := 0
+				isList, err := d.List(func() error {
+					n++
+					if !d.DiscardValue() {
+						return d.Err()
+					}
+					return nil
+				})
+				if err != nil || !isList || n != 0 {
+					fail(it, fmt.Sprintf("empty list decoded as isList=%v items=%d err=%v", isList, n, err))
+					return
+				}
+				nEmpty++
+			case "list":
+				var got []uint32
+				err := d.ExpectList(func() error {
+					var v uint32
+					if !d.ExpectNumber(&v) {
+						return d.Err()
+					}
+					got = append(got, v)
+					return nil
+				})
+				if err != nil || len(got) != it.k {
+					fail(it, fmt.Sprintf("list of %d numbers decoded as %v err=%v", it.k, got, err))
+					return
+				}
+				for _, v := range got {
+					if v != it.n {
+						fail(it, fmt.Sprintf("list item %d decoded as %d", it.n, v))
+						return
+					}
+				}
+			case "nested":
+				leaves, maxd := 0, 0
+				var walk func(lv int) error
+				walk = func(lv int) error {
+					if lv > maxd {
+						maxd = lv
+					}
+					isList, err := d.List(func() error { return walk(lv + 1) })
+					if err != nil {
+						return err
+					}
+					if !isList {
+						var s string
+						if !d.ExpectAtom(&s) {
+							return d.Err()
+						}
+						leaves++
+					}
+					return nil
+				}
+				if err := walk(0); err != nil || leaves != it.k || (it.k > 0 && maxd != it.depth+1) {
+					fail(it, fmt.Sprintf("nesting of depth %d with %d leaves decoded as depth %d, %d leaves, err=%v", it.depth+1, it.k, maxd, leaves, err))
+					return
+				}
+			case "num":
+				var v uint32
+				if !d.ExpectNumber(&v) || v != it.n {
+					fail(it, fmt.Sprintf("number %d decoded as %d", it.n, v))
+					return
+				}
+			case "num64":
+				var v int64
+				if !d.ExpectNumber64(&v) || v != it.n64 {
+					fail(it, fmt.Sprintf("number %d decoded as %d", it.n64, v))
+					return
+				}
+			case "nil":
+				if !d.ExpectNIL() {
+					fail(it, "NIL not decoded")
+					return
+				}
+			case "str":
+				var got string
+				if !d.ExpectString(&got) || got != it.s {
+					fail(it, fmt.Sprintf("string %s decoded as %s", qs(it.s), qs(got)))
+					return
+				}
+			}
+		}
+		var sent string
+		if !d.ExpectSP() || !d.ExpectAtom(&sent) || sent != "SENTINEL" || !d.ExpectCRLF() {
+			fail(sessItem{kind: "line-end"}, fmt.Sprintf("sentinel/CRLF not found (got %q)", sent))
+			return
+		}
+	}
+	if !d.EOF() {
+		c.viol("bytes-left-or-missing", m, "session", "end", "decoder has unread bytes after the last line", nil)
+	}
+	c.w.Metric("session_lines_decoded_by_one_decoder", int64(nLines))
+	c.w.MetricMax("session_max_empty_lists_on_one_decoder", int64(nEmpty))
+	c.w.Class("session/" + m.String())
+}
+
 // ---- generators ---------------------------------------------------------------
 
 var strClasses = []string{"ends-backslash", "ends-quote", "only-specials", "empty", "atom", "space", "quote", "backslash", "nul", "cr", "lf", "crlf-cmd", "lit-lookalike", "utf8", "badutf8", "mixed", "nil-word", "paren"}
@@ -778,6 +980,16 @@ func body(w *hx.W) {
 		for _, n := range []int{0, 1, 4096, 4097, 70000} {
 			c.literalStream(m, []byte(genString(rng, "mixed", n)))
 			w.CaseStr(fmt.Sprintf("%s|lit|%d", m, n))
+		}
+	}
+	// long-lived encoder/decoder pairs
+	for mi, m := range modes {
+		if !w.Mine(mi) {
+			continue
+		}
+		for k := 0; k < w.Pick(1, 6); k++ {
+			c.session(m, rng, w.Pick(2600, 6000))
+			w.CaseStr(fmt.Sprintf("%s|session|%d", m, k))
 		}
 	}
 	// mailboxes + random composition
